@@ -440,73 +440,6 @@ Proof.
 Qed.
 
 (* ------------------------------------------------------------------ *)
-(* C11_bitflip, relative to the cryptographic hypothesis               *)
-(* ------------------------------------------------------------------ *)
-(* [genuine k h msg value]: the holder of key k really produced signature value [value] on [msg]
-   with hash h.  The hypothesis says the signature check accepts nothing else — for RSA, DSA,
-   ECDSA and EdDSA with a collision-resistant hash this is existential unforgeability; no proof
-   assistant can discharge it, so it is a named premise. *)
-Definition flip_sensitive (P : params) (genuine : pubkey -> N -> bytes -> list mpi -> Prop) : Prop :=
-  forall c k msg s, sig_accepted c P k msg s -> genuine k (sc_hash s) msg (sc_mpis s).
-
-(* the certifications and bindings present in the unmodified key *)
-Record signed_uid := mksu { su_uid : bytes; su_sig : sigcore }.
-Record signed_sub := mkss { ss_key : pubkey; ss_sig : sigcore }.
-
-Definition genuine_of (k0 : pubkey) (uids : list signed_uid) (subs : list signed_sub)
-  (k : pubkey) (h : N) (msg : bytes) (v : list mpi) : Prop :=
-  key_body k = key_body k0 /\
-  ((exists x, In x uids /\ msg = uid_hash_input k0 (su_uid x) ++ suffix (su_sig x) /\ v = sc_mpis (su_sig x) /\ h = sc_hash (su_sig x)) \/
-   (exists x, In x subs /\ msg = binding_hash_input k0 (ss_key x) ++ suffix (ss_sig x) /\ v = sc_mpis (ss_sig x) /\ h = sc_hash (ss_sig x))).
-
-Definition sane_key (k : pubkey) : Prop := lenN (key_body k) < 65536.
-Definition sane_sig (s : sigcore) : Prop := lenN (sc_hashed s) < 65536.
-
-Theorem bitflip_identity : forall c P k0 uids subs evs e,
-  flip_sensitive P (genuine_of k0 uids subs) ->
-  sane_key k0 -> Forall (fun x => lenN (su_uid x) < 4294967296 /\ sane_sig (su_sig x)) uids ->
-  read_entity c P evs = Ok e ->
-  sane_key (e_primary e) ->
-  forall i, In i (e_ids e) -> lenN (id_name i) < 4294967296 -> sane_sig (id_self i) ->
-  exists x, In x uids /\
-    key_body (e_primary e) = key_body k0 /\ id_name i = su_uid x /\
-    sc_hashed (id_self i) = sc_hashed (su_sig x) /\ sig_header (id_self i) = sig_header (su_sig x) /\
-    sc_mpis (id_self i) = sc_mpis (su_sig x).
-Proof.
-  intros c P k0 uids subs evs e F S0 SU R Sp i Hi Li Si.
-  destruct (read_entity_bound _ _ _ _ R) as (_ & _ & _ & A & _).
-  rewrite Forall_forall in A. destruct (A i Hi) as (s & _ & _ & _ & V).
-  apply verify_uid_sig_inv in V. destruct V as [_ V].
-  apply F in V. destruct V as [Ek [(x & Hx & Em & Ev & _)|(x & Hx & Em & _)]].
-  - rewrite Forall_forall in SU. destruct (SU x Hx) as [Lx Sx].
-    apply uid_message_injective in Em; auto. destruct Em as (E1 & E2 & E3 & E4).
-    exists x. repeat split; auto.
-  - exfalso. revert Em. apply uid_vs_binding_disjoint; auto.
-Qed.
-
-Theorem bitflip_subkey : forall c P k0 uids subs evs e,
-  flip_sensitive P (genuine_of k0 uids subs) ->
-  sane_key k0 -> Forall (fun x => sane_key (ss_key x) /\ sane_sig (ss_sig x)) subs ->
-  read_entity c P evs = Ok e ->
-  sane_key (e_primary e) ->
-  forall sk, In sk (e_subkeys e) -> sane_key (sk_key sk) -> sane_sig (sk_sig sk) ->
-  exists x, In x subs /\
-    key_body (e_primary e) = key_body k0 /\ key_body (sk_key sk) = key_body (ss_key x) /\
-    sc_hashed (sk_sig sk) = sc_hashed (ss_sig x) /\ sig_header (sk_sig sk) = sig_header (ss_sig x) /\
-    sc_mpis (sk_sig sk) = sc_mpis (ss_sig x).
-Proof.
-  intros c P k0 uids subs evs e F S0 SS R Sp sk Hs Lk Ss.
-  destruct (read_entity_bound _ _ _ _ R) as (_ & _ & _ & _ & B).
-  rewrite Forall_forall in B. destruct (B sk Hs) as (s & _ & Ec & _ & V).
-  apply verify_key_sig_inv in V. destruct V as [V _]. rewrite Ec in V.
-  apply F in V. destruct V as [Ek [(x & Hx & Em & _)|(x & Hx & Em & Ev & _)]].
-  - exfalso. symmetry in Em. revert Em. apply uid_vs_binding_disjoint; auto.
-  - rewrite Forall_forall in SS. destruct (SS x Hx) as [Lx Sx].
-    apply binding_message_injective in Em; auto. destruct Em as (E1 & E2 & E3 & E4).
-    exists x. repeat split; auto.
-Qed.
-
-(* ------------------------------------------------------------------ *)
 (* the unrepaired code: witnesses                                      *)
 (* ------------------------------------------------------------------ *)
 (* F29: an EdDSA signature whose R has only 31 octets.  Whatever ed25519.Verify says about
@@ -1225,3 +1158,133 @@ Proof. vm_compute. reflexivity. Qed.
 Lemma f39_fixed : subkey_sig_attrs fixed f39_subkey =
   [(bs "Usage", bs "encrypt communications, encrypt storage"); (bs "Created", bs "2020-01-01"); (bs "Expires", bs "2023-06-01")].
 Proof. vm_compute. reflexivity. Qed.
+
+(* ------------------------------------------------------------------ *)
+(* BitLen of an octet string, as the model computes it                 *)
+(* ------------------------------------------------------------------ *)
+
+Lemma be_to_N_strip : forall l, be_to_N (strip_zeros l) = be_to_N l.
+Proof.
+  induction l as [|x r IH]; simpl; auto. destruct x; auto.
+Qed.
+
+Lemma size_shift : forall x k r, 0 < x -> r < 2 ^ k -> N.size (x * 2 ^ k + r) = N.size x + k.
+Proof.
+  intros x k r Hx Hr.
+  rewrite !N.size_log2 by lia.
+  assert (L : N.log2 (x * 2 ^ k + r) = N.log2 x + k).
+  { apply N.log2_unique; [lia|].
+    pose proof (N.log2_spec x Hx) as [A B].
+    rewrite N.pow_add_r. rewrite N.pow_succ_r' in B.
+    split.
+    - nia.
+    - replace (N.succ (N.log2 x + k)) with (N.succ (N.log2 x) + k) by lia.
+      rewrite N.pow_add_r, N.pow_succ_r'. nia. }
+  rewrite L. lia.
+Qed.
+
+Theorem bytes_bitlen_spec : forall b, bytes_ok b = true -> bytes_bitlen b = bitlen (be_to_N b).
+Proof.
+  intros b Hok. unfold bytes_bitlen, bitlen. rewrite <- (be_to_N_strip b).
+  assert (Hs : bytes_ok (strip_zeros b) = true).
+  { clear -Hok. induction b as [|x r IH]; simpl; auto. apply bytes_ok_cons in Hok. destruct Hok as [Hx Hr].
+    destruct x; auto. unfold bytes_ok in *. simpl. rewrite Hr. simpl. unfold byte_ok. apply andb_true_iff. split; auto. lia. }
+  assert (Hz : match strip_zeros b with 0 :: _ => False | _ => True end).
+  { clear. induction b as [|x r IH]; simpl; auto. destruct x; auto. }
+  destruct (strip_zeros b) as [|x r]; [reflexivity|].
+  destruct x as [|p]; [contradiction|].
+  apply bytes_ok_cons in Hs. destruct Hs as [_ Hr].
+  change (N.pos p :: r) with ([N.pos p] ++ r). rewrite be_to_N_app.
+  replace (be_to_N [N.pos p]) with (N.pos p) by (cbn; lia).
+  pose proof (be_to_N_bound r Hr) as B.
+  replace (256 ^ N.of_nat (length r)) with (2 ^ (8 * lenN r)) in *.
+  2:{ unfold lenN. rewrite N.pow_mul_r. reflexivity. }
+  rewrite size_shift; auto. lia.
+Qed.
+
+
+
+(* ------------------------------------------------------------------ *)
+(* C11_bitflip, relative to the cryptographic hypothesis               *)
+(* ------------------------------------------------------------------ *)
+(* the integers of a signature value (what the primitives see): content octets without leading zeros *)
+Definition sig_values (s : sigcore) : list bytes := map (fun m => strip_zeros (m_bytes m)) (sc_mpis s).
+
+(* [flip_sensitive P k0 genuine]: whatever the signature check accepts UNDER THE HONEST KEY k0 was
+   really signed by its holder: [genuine h msg v] = "the holder of k0 signed msg with hash h, the
+   signature value being v".  For RSA PKCS#1 v1.5, DSA, ECDSA and EdDSA with a collision-resistant
+   hash this is existential unforgeability under chosen-message attack; no proof assistant can
+   discharge it, so it is a named premise, never an axiom. *)
+Definition flip_sensitive (P : params) (k0 : pubkey) (genuine : N -> bytes -> list bytes -> Prop) : Prop :=
+  forall c msg s, sig_accepted c P k0 msg s -> genuine (sc_hash s) msg (sig_values s).
+
+(* the certifications and bindings the holder of k0 made: those of the unmodified key.
+   [strong]: also the signature VALUE is one the holder produced (strong unforgeability: true of
+   RSA PKCS#1 v1.5 and of Ed25519 as Go verifies it, not of DSA / ECDSA, where (r, -s) verifies too) *)
+Record signed_uid := mksu { su_uid : bytes; su_sig : sigcore }.
+Record signed_sub := mkss { ss_key : pubkey; ss_sig : sigcore }.
+
+Definition genuine_of (strong : bool) (k0 : pubkey) (uids : list signed_uid) (subs : list signed_sub)
+  (h : N) (msg : bytes) (v : list bytes) : Prop :=
+  (exists x, In x uids /\ msg = uid_hash_input k0 (su_uid x) ++ suffix (su_sig x) /\
+             (strong = true -> v = sig_values (su_sig x))) \/
+  (exists x, In x subs /\ msg = binding_hash_input k0 (ss_key x) ++ suffix (ss_sig x) /\
+             (strong = true -> v = sig_values (ss_sig x))).
+
+Definition sane_key (k : pubkey) : Prop := lenN (key_body k) < 65536.
+Definition sane_sig (s : sigcore) : Prop := lenN (sc_hashed s) < 65536.
+
+Theorem bitflip_identity : forall strong c P k0 uids subs evs e,
+  flip_sensitive P k0 (genuine_of strong k0 uids subs) ->
+  sane_key k0 -> Forall (fun x => lenN (su_uid x) < 4294967296 /\ sane_sig (su_sig x)) uids ->
+  read_entity c P evs = Ok e ->
+  e_primary e = k0 ->
+  forall i, In i (e_ids e) -> lenN (id_name i) < 4294967296 -> sane_sig (id_self i) ->
+  exists x, In x uids /\ id_name i = su_uid x /\
+    sc_hashed (id_self i) = sc_hashed (su_sig x) /\ sig_header (id_self i) = sig_header (su_sig x) /\
+    (strong = true -> sig_values (id_self i) = sig_values (su_sig x)).
+Proof.
+  intros strong c P k0 uids subs evs e F S0 SU R Ep i Hi Li Si.
+  destruct (identity_bound _ _ _ _ R) as (_ & _ & A).
+  destruct (A i Hi) as (s & _ & _ & _ & _ & _ & V). rewrite Ep in V.
+  apply F in V. destruct V as [(x & Hx & Em & Ev)|(x & Hx & Em & _)].
+  - rewrite Forall_forall in SU. destruct (SU x Hx) as [Lx Sx].
+    apply uid_message_injective in Em; auto. destruct Em as (_ & E2 & E3 & E4).
+    exists x. repeat split; auto.
+  - exfalso. revert Em. apply uid_vs_binding_disjoint; auto.
+Qed.
+
+Theorem bitflip_subkey : forall strong c P k0 uids subs evs e,
+  flip_sensitive P k0 (genuine_of strong k0 uids subs) ->
+  sane_key k0 -> Forall (fun x => sane_key (ss_key x) /\ sane_sig (ss_sig x)) subs ->
+  read_entity c P evs = Ok e ->
+  e_primary e = k0 ->
+  forall sk, In sk (e_subkeys e) -> sane_key (sk_key sk) -> sane_sig (sk_sig sk) ->
+  exists x, In x subs /\ key_body (sk_key sk) = key_body (ss_key x) /\
+    sc_hashed (sk_sig sk) = sc_hashed (ss_sig x) /\ sig_header (sk_sig sk) = sig_header (ss_sig x) /\
+    (strong = true -> sig_values (sk_sig sk) = sig_values (ss_sig x)).
+Proof.
+  intros strong c P k0 uids subs evs e F S0 SS R Ep sk Hs Lk Ss.
+  destruct (subkey_bound _ _ _ _ R sk Hs) as (s & _ & _ & _ & V & _). rewrite Ep in V.
+  apply F in V. destruct V as [(x & Hx & Em & _)|(x & Hx & Em & Ev)].
+  - exfalso. symmetry in Em. revert Em. apply uid_vs_binding_disjoint; auto.
+  - rewrite Forall_forall in SS. destruct (SS x Hx) as [Lx Sx].
+    apply binding_message_injective in Em; auto. destruct Em as (_ & E2 & E3 & E4).
+    exists x. repeat split; auto.
+Qed.
+
+(* the hypothesis is satisfiable together with an accepted key: parameters that accept exactly one
+   message under ex_key, and the key whose certification is that message *)
+Definition ex_msg : bytes := uid_hash_input ex_key (bs "a") ++ suffix (s_core ex_sig).
+Definition ex_strict : params :=
+  mkparams (fun _ => repeat 0 20) (fun _ m => if bytes_eqb m ex_msg then Ok [1; 2; 3] else Err "unknown message")
+           (fun _ => true) (fun _ _ _ _ => Ok true) (fun _ _ => Ok true) (fun _ => Ok true).
+Example ex_flip_sensitive :
+  flip_sensitive ex_strict ex_key (genuine_of false ex_key [mksu (bs "a") (s_core ex_sig)] []) /\
+  is_ok (read_entity fixed ex_strict ex_evs) = true.
+Proof.
+  split; [|vm_compute; reflexivity].
+  intros c msg s (_ & dg & D & _). left. exists (mksu (bs "a") (s_core ex_sig)). split; [left; reflexivity|].
+  split; [|discriminate]. simpl in D. destruct (bytes_eqb msg ex_msg) eqn:E; [|discriminate].
+  apply bytes_eqb_eq in E. exact E.
+Qed.
